@@ -209,6 +209,41 @@ def oracle(total, r):
     return bad
 
 
+SCRIPTED = {'I': 'Interrupted:scripted_interrupted', 'U': 'UnexpectedEof:scripted_eof', 'W': 'WriteZero:scripted_write-zero'}
+
+
+def script_expect(total, script):
+    """What the script itself says the call must report: (outcome, bytes left, err text).
+    Independent of the machine: element j reads one byte; 'o' is a value, 'P' a panic, every other
+    byte the element decoder's own error, no byte left the crate's "Unexpected length of input"."""
+    for j in range(total):
+        if j >= len(script):
+            return 'failed', 0, 'InvalidData:Unexpected_length_of_input'
+        b = script[j]
+        if b == 'o':
+            continue
+        if b == 'P':
+            return 'panicked', len(script) - j - 1, '-'
+        return 'failed', len(script) - j - 1, SCRIPTED.get(b, 'InvalidData:scripted_error')
+    return 'returned', len(script) - total, '-'
+
+
+def script_oracle(total, script, r):
+    """disagreements between the observation and the script's own meaning (error identity, bytes consumed)"""
+    d = parse_impl(r or '')
+    if d is None:
+        return []       # already reported by oracle()
+    out, left, err = script_expect(total, script)
+    bad = []
+    if d['outcome'] != out:
+        bad.append('outcome %s, the script says %s' % (d['outcome'], out))
+    if d.get('left') != str(left):
+        bad.append('%s bytes left unread, the script says %d' % (d.get('left'), left))
+    if d.get('err') != err:
+        bad.append('error reported to the caller %s, the failing element produced %s' % (d.get('err'), err))
+    return bad
+
+
 def failure_of(cfg, exe, c, r, model, probs):
     cid, op, args, total = c
     l = line(cid, op, *args)
@@ -232,6 +267,10 @@ def stage(cfg, exe, driver_res, cases):
         if probs:
             fails.append(failure_of(cfg, exe, c, r, m, probs))
         first = (r or '').partition(' | ')[0]
+        sbad = script_oracle(total, '' if str(args[-1]) == '-' else str(args[-1]), r)
+        if sbad:
+            dis.append({'what': '%s %s [%s]: %s' % (op, ' '.join(str(a) or '-' for a in args), cfg, '; '.join(sbad)),
+                        'case': line(cid, op, *args), 'impl': r, 'cfg': cfg})
         if r is None or first != m:
             dis.append({'what': '%s %s [%s]: implementation "%s", machine "%s"' % (op, ' '.join(str(a) or '-' for a in args), cfg, r, m),
                         'case': line(cid, op, *args), 'impl': r, 'model': m, 'cfg': cfg})
